@@ -6,10 +6,11 @@ S=/verif/seeded/$1; BASE=${2:-63b46ad}; W=/tmp/vs/$1
 rm -rf $W; mkdir -p /tmp/vs; git -C /repo worktree prune; git -C /repo worktree add --detach $W $BASE -q || exit 2
 cp -r /repo/target $W/target 2>/dev/null
 cd $W
-git apply $S/demo.diff || { echo "demo.diff does not apply"; exit 2; }
+git apply $S/demo.diff 2>/dev/null || patch -p1 -s -F 3 --no-backup-if-mismatch < $S/demo.diff || { echo "$1 demo.diff does not apply"; cd /; git -C /repo worktree remove --force $W; exit 2; }
 mkdir -p $W/SEED && cp $S/run_demo.sh $W/SEED/run_demo.sh
 bash SEED/run_demo.sh > $W/demo_base.log 2>&1; a=$?
-git apply $S/patch.diff || { echo "patch.diff does not apply"; exit 2; }
+P=$S/patch.diff; [ -f $S/patch_rebased.diff ] && [ "$BASE" = "HEAD" ] && P=$S/patch_rebased.diff
+git apply $P 2>/dev/null || patch -p1 -s -F 3 --no-backup-if-mismatch < $P || { echo "$1 base=$BASE patch does not apply"; cd /; git -C /repo worktree remove --force $W; exit 2; }
 cargo test --workspace --offline --no-fail-fast --lib --bins -- --skip seed_demo > $W/suite.log 2>&1; b=$?
 npass=$(grep -E "^test result" $W/suite.log | awk '{s+=$4} END {print s}')
 bash SEED/run_demo.sh > $W/demo_patched.log 2>&1; c=$?
